@@ -290,8 +290,8 @@ def forward_cumulation_reproduces_the_series(K, name):
     K.ensure("step: the reconstructed value at the visited period is x(t_i)", K.cell_eq(V(K, ms, md, a + i, 0), _x_cell(K, xd, lo, a + i)))
 
 
-@contract("C13", targets=[P + "Inlay._cumulate_backward", "irispie.dates:Span.resolve", "irispie.dates:Span.shift"], instances=[("diff",)], cross=0, opts={"max_paths": 20000})
-def backward_cumulation_initial_condition_covers_the_chain(K, name):
+@contract("C13", targets=[P + "Inlay._cumulate_backward", "irispie.dates:Span.resolve", "irispie.dates:Span.shift"], instances=[("diff", w) for w in ("explicit", "until", "from", "both")], cross=0, opts={"max_paths": 20000})
+def backward_cumulation_initial_condition_covers_the_chain(K, name, which):
     """_cumulate_backward, code before the loop: with x as initial condition the series is initialised to x on the whole
     range [min(target span), max(target span) - shift], i.e. every anchor period the backward chain reads (t = sh - shift
     for every reconstructed sh) carries its value - for EVERY negative shift, not only -1."""
@@ -302,9 +302,13 @@ def backward_cumulation_initial_condition_covers_the_chain(K, name):
     K.assume(lo_t <= hi_t)
     top = hi_t - k
     x, xd = _full_series(K, "x", cls, lo_t, top)
-    cdata = K.derived_array((top - lo_t + 1, 1), lambda i, c: K.real_cell(K.cell_val(_x_cell(K, xd, lo_t, lo_t + i)) - 1))
-    change = K.obj(Series, start=K.obj(cls, serial=lo_t), data=cdata, data_type=np.float64, metadata={}, __description__="")
-    span = K.call(D.Span, K.obj(cls, serial=hi_t), K.obj(cls, serial=lo_t), -1)
+    # an end of the descending span left open means "as far as the change series reaches": the change series of x over
+    # [lo_t, top] is stored on [lo_t - shift, top], so the open until-period is lo_t and the open from-period is hi_t
+    c_lo = lo_t if which == "explicit" else lo_t - k
+    cdata = K.derived_array((top - c_lo + 1, 1), lambda i, c: K.real_cell(K.cell_val(_x_cell(K, xd, lo_t, lo_t + i)) - 1))
+    change = K.obj(Series, start=K.obj(cls, serial=c_lo), data=cdata, data_type=np.float64, metadata={}, __description__="")
+    span = K.call(D.Span, None if which in ("from", "both") else K.obj(cls, serial=hi_t),
+                  None if which in ("until", "both") else K.obj(cls, serial=lo_t), -1)
     fac = T._CUMULATIVE_FACTORY[name]
     h0 = K.run_prefix(T.Inlay._cumulate_backward, change, k, fac["backward"], x, span)
     s0 = K.local(h0, "self")
